@@ -610,7 +610,10 @@ func VerifyLinkSignatureThesholds(layout Layout,
 					continue
 				}
 
-				linksPerStepVerified[signerKeyID] = linkEnv
+				// Count the link under the key id of the certificate that verified
+				// it, not under the key id claimed by the signature, so that one
+				// certificate holder cannot be counted more than once.
+				linksPerStepVerified[cert.KeyID] = linkEnv
 			}
 		}
 
